@@ -6,9 +6,13 @@
 #[allow(dead_code)]
 #[path = "../../vp-store/src/store.rs"]
 mod store;
+#[allow(dead_code)]
+#[path = "../../vp-store/src/hooks.rs"]
+mod hooks;
 
 mod c07;
 mod c08;
+mod c09;
 mod c12;
 mod node;
 
@@ -19,9 +23,13 @@ fn main() {
     let mut rep = Report::new(&args.prop);
     vpc::quiet_panics();
     store::raise_fd_limit();
+    hooks::install();
+    sierradb_cluster::verif::install(Box::new(|name, args| hooks::on_point(name, args)));
+    hooks::set_recording(false);
     match args.prop.as_str() {
         "C07" => c07::run(&args, &mut rep),
         "C08" => c08::run(&args, &mut rep),
+        "C09" => c09::run(&args, &mut rep),
         "C12" => c12::run(&args, &mut rep),
         p => rep.inconclusive(format!("vp-cluster1 does not serve {p}")),
     }
